@@ -102,4 +102,38 @@ void h_info_roundtrip(void)
 }
 #endif
 
+/*
+ * 'N' record: the integrity seal.  The loader marks the file as checked ONLY when the four bytes stored after the 'N'
+ * equal the CRC of everything read before them (taken BEFORE they are read); a short read or a mismatch never returns.
+ */
+#ifdef VERIF_CRC_REGION
+static unsigned g_ord, g_scrc_when, g_get32_when;
+static uint32_t g_scrc_value, g_stored_value;
+static int g_get32_ret;
+uint32_t scrc(STREAM *s) { (void)s; g_scrc_when = ++g_ord; return g_scrc_value; }
+int64_t stell(STREAM *s) { (void)s; return 0; }
+int sgetble32(STREAM *s, uint32_t *value) { (void)s; g_get32_when = ++g_ord; if (g_get32_ret == 0) *value = g_stored_value; return g_get32_ret; }
+#ifdef VERIF_CBMC
+void exit(int code) { (void)code; __CPROVER_assume(0); }
+#endif
+#include "region_crc_check.c"
+
+void h_crc_record(void)
+{
+	int checked = 0;
+	VERIF_INPUTS();
+	g_scrc_value = (uint32_t)IN.info_now;
+	g_stored_value = (uint32_t)IN.info_oldest;
+	g_get32_ret = IN.ns < 0 ? -1 : 0;
+	g_ord = 0;
+#ifdef VERIF_NATIVE
+	exit(77);
+#endif
+	region_crc_check(0, "content", &checked);
+	VERIF_ASSERT(checked == 1 && g_get32_ret == 0 && g_stored_value == g_scrc_value, "the content file counts as checked only when the stored CRC equals the computed one");
+	VERIF_ASSERT(g_scrc_when == 1 && g_get32_when == 2, "the CRC is taken before the stored value is read");
+	VERIF_CANARY();
+}
+#endif
+
 #include "verif_tail.h"
